@@ -193,6 +193,19 @@ def subst(t: Any, mapping: Dict[Term, Term]) -> Any:
     return t
 
 
+def _reduce_beta(t: Any) -> Any:
+    """(lambda p: body)(a) is body with a for p - once a parameter that is called was bound to a lambda written at the
+    call site.  Not done when a lambda nested in the body binds one of the same names."""
+    if not isinstance(t, tuple) or not t:
+        return t
+    r = tuple(_reduce_beta(x) for x in t)
+    if len(r) in (4, 5) and r[0] == "app" and isinstance(r[1], tuple) and len(r[1]) == 3 and r[1][0] == "lambda" and not r[3] and len(r[2]) == len(r[1][1]):
+        ps, body = r[1][1], r[1][2]
+        if not any(isinstance(x, tuple) and len(x) == 3 and x[0] == "lambda" and set(x[1]) & set(ps) for x in walk_all(body)):
+            return subst(body, {("bound", p_): a_ for p_, a_ in zip(ps, r[2])})
+    return r
+
+
 def _reduce_fields(t: Any, alias: Optional[Dict[str, str]] = None) -> Any:
     """x.f where x is a constructed object whose field f is known (after a parameter was bound to the object); `alias`
     maps property names to the attributes they stand for (x.stream was read as x._stream before x was known to be a
@@ -1385,6 +1398,8 @@ class FuncAnalysis:
         out = subst(rt, binding)
         if any(isinstance(v, tuple) and v and v[0] in ("global", "const") for v in binding.values()):
             out = self._reduce_getattr(out)
+        if any(isinstance(v, tuple) and v and v[0] == "lambda" for v in binding.values()):
+            out = _reduce_beta(out)
         if any(isinstance(v, tuple) and v and v[0] == "new" for v in binding.values()):
             self.model_property_alias("")
             out = _reduce_fields(out, FuncAnalysis._prop_alias_cache.get(id(self.model), {}))
